@@ -267,7 +267,13 @@ func runSeq(c *mc.Ctx, seq []int, rank int) {
 		}
 	}
 
-	// ---- judge ----
+	judge(c, repo, r, viol, seq, true)
+}
+
+// judge evaluates the final state of repo against the reference r; every failed clause is
+// reported through viol. With record=false nothing is counted (used by the concurrent phase,
+// which judges one final state against several candidate linearizations).
+func judge(c *mc.Ctx, repo dblookupext.HistoryRepository, r *ref, viol func(sig string, extra map[string]interface{}), seq []int, record bool) {
 	nontrivial := false
 	out := []string{}
 	for bi := range blocks {
@@ -390,6 +396,9 @@ func runSeq(c *mc.Ctx, seq []int, rank int) {
 			out = append(out, o)
 		}
 	}
+	if !record {
+		return
+	}
 	if nontrivial {
 		c.Nontrivial(fmt.Sprint(seq))
 		if c.WantSample() && len(seq) >= 3 {
@@ -397,6 +406,31 @@ func runSeq(c *mc.Ctx, seq []int, rank int) {
 		}
 	}
 	c.Outcome(strings.Join(out, " "))
+}
+
+// buildRef is the reference bookkeeping of a sequence (what runSeq accumulates while replaying).
+func buildRef(seq []int) *ref {
+	r := &ref{blocksRec: map[int]bool{}}
+	for pos, e := range seq {
+		ev := menu[e]
+		if ev.rec >= 0 {
+			r.blocksRec[ev.rec] = true
+			for _, m := range blocks[ev.rec].mbs {
+				r.recs[m] = append(r.recs[m], pos)
+				r.recBlk[m] = append(r.recBlk[m], ev.rec)
+			}
+			continue
+		}
+		r.ntfAt = append(r.ntfAt, pos)
+		for _, m := range notifs[ev.ntf] {
+			for _, l := range m.list {
+				for _, sd := range sidesOf(l.mb, l.shard) {
+					r.deliv[l.mb][sd] = append(r.deliv[l.mb][sd], delivery{pos, m.nonce, metaHash(m)})
+				}
+			}
+		}
+	}
+	return r
 }
 
 // classifyMissing names the history shape that explains an empty notarization side although a
@@ -458,7 +492,7 @@ func main() {
 		c.Rule = fmt.Sprintf("every sequence (with repetition) of 1..%d events from the %d-event menu %v, each replayed on a fresh real historyRepository (self shard 0; m1 = cross-shard 1->0 with 2 txs, m2 = intra-shard 0->0; blocks A,B compete at nonce 10 epoch 0, D/E re-include m1/m2 in epoch 1) and judged after its last event; non-trivial = some miniblock was recorded in >=2 distinct blocks or has both a record and a delivered notification", maxLen, len(menu), evNames)
 		c.Bound = fmt.Sprintf("sequence length <= %d over %d events", maxLen, len(menu))
 		c.Assumptions = []string{
-			"API calls are applied one after the other (RecordBlock is synchronous in the node); interleavings inside RecordBlock/OnNotarizedBlocks are not enumerated",
+			"sequence phase: API calls are applied one after the other; concurrent phase (concurrent.go): 2/3 calls run as real goroutines, every mutex operation of core/dblookupext and core/container is a scheduling point, all schedules are executed and the final state must be explained by some linearization",
 			"'most recently committed block' = block of the most recent RecordBlock call containing the miniblock (the repository has no roll-back call)",
 			"judged after every completed call: every prefix is an enumerated sequence; lookups are made only after the last event of a sequence",
 			"notarization: once a record and a notification for a side both arrived, that side carries nonce+hash of one of the delivered meta blocks listing the miniblock on that side (which one, when several, is not promised); before any notification the side is empty",
@@ -496,5 +530,6 @@ func main() {
 			runSeq(c, seq, i)
 		})
 		c.Set("sequences", total)
+		concurrentPhase(c)
 	})
 }
